@@ -4,7 +4,7 @@
    of_s = Some): that the real constructors invert the real SerializationString is checked on the
    implementation by the harness (strict comparison per kind), not here. *)
 From Coq Require Import ZArith NArith Bool List.
-From PcoreV Require Import Model.Base Model.Ser Model.SerAttrs Model.SerReent Model.SerStruct.
+From PcoreV Require Import Model.Base Model.Ser Model.SerAttrs Model.SerReent Model.SerStruct Model.SerEq.
 Import ListNotations.
 
 Definition ts : str -> str -> str := fun _ p => p.
@@ -45,40 +45,9 @@ Definition event_eqb (a b : @event str) : bool :=
   | _, _ => false
   end.
 
-Fixpoint pvalue_eqb (a b : @pvalue str) {struct a} : bool :=
-  match a, b with
-  | PUndef, PUndef => true
-  | PDefault, PDefault => true
-  | PBool x, PBool y => Bool.eqb x y
-  | PInt x, PInt y => Z.eqb x y
-  | PFloat x, PFloat y => Z.eqb x y
-  | PStr x, PStr y => str_eqb x y
-  | PArr x, PArr y =>
-      (fix go (x y : list (@pvalue str)) : bool :=
-         match x, y with
-         | [], [] => true
-         | a :: x', b :: y' => pvalue_eqb a b && go x' y'
-         | _, _ => false
-         end) x y
-  | PHash x, PHash y =>
-      (fix go (x y : list (@pvalue str * @pvalue str)) : bool :=
-         match x, y with
-         | [], [] => true
-         | (a, c) :: x', (b, d) :: y' => pvalue_eqb a b && pvalue_eqb c d && go x' y'
-         | _, _ => false
-         end) x y
-  | PSens x, PSens y => pvalue_eqb x y
-  | PRich t x, PRich u y => str_eqb t u && str_eqb x y
-  | PObj t x, PObj u y =>
-      pvalue_eqb t u &&
-      (fix go (x y : list (@pvalue str * @pvalue str)) : bool :=
-         match x, y with
-         | [], [] => true
-         | (a, c) :: x', (b, d) :: y' => pvalue_eqb a b && pvalue_eqb c d && go x' y'
-         | _, _ => false
-         end) x y
-  | _, _ => false
-  end.
+(* the comparison of results and the consumer's Value.Equals: structural equality on pvalue, Model/SerEq.v
+   (proved to decide equality: Proofs/SerEqProofs.pv_eqb_str_eq / C10_pvalue_eqb_decides_equality) *)
+Definition pvalue_eqb : @pvalue str -> @pvalue str -> bool := pv_eqb str_eqb.
 
 (* what the harness observed of the deserializer *)
 Inductive obs_res := ROk (v : @pvalue str) | RFault | RErr.
@@ -139,28 +108,11 @@ Inductive aobs :=
 
 Definition acase : Type := (nat * list (attr str) * list (decl str) * aobs)%type.
 
-Fixpoint forallb2 {A B} (f : A -> B -> bool) (x : list A) (y : list B) : bool :=
-  match x, y with
-  | [], [] => true
-  | a :: x', b :: y' => f a b && forallb2 f x' y'
-  | _, _ => false
-  end.
-
-Fixpoint nodupb (l : list str) : bool :=
-  match l with
-  | [] => true
-  | s :: l' => negb (existsb (str_eqb s) l') && nodupb l'
-  end.
-
-Definition isdef_soundb (a : attr str) (d : decl str) : bool :=
-  str_eqb (d_name d) (a_name a) &&
-  (negb (a_isdef a) ||
-   match d_default d with Some dv => pvalue_eqb dv (erase (a_val a)) | None => false end).
-
+(* forallb2, nodupb, isdef_soundb, attr_hyps_okb: Model/SerEq.v; attr_hyps_okb is proved to imply the hypotheses
+   of the theorems (Proofs/SerEqProofs.attr_hyps_okb_sound / C10_attr_hyps_checker) *)
 Definition attrs_check (c : acase) : bool :=
   let '(req, l, ds, ob) := c in
-  forallb2 isdef_soundb l ds &&
-  nodupb (map a_name l) &&
+  attr_hyps_okb str_eqb l ds &&
   match ob with
   | AObs full =>
       match fill ds (pobj_attrs (erase (VObjT 0 VUndef req l []))) with
@@ -185,14 +137,30 @@ Inductive sobs :=
 
 Definition scase : Type := (nat * list (attr str) * list (decl str) * sobs)%type.
 
+(* The input class of the open finding object-default-coarse-equals: an attribute flagged default-valued by the
+   implementation (attribute.Default = declared default .Equals value) whose value is NOT the declared default,
+   both being Timespans - Timespan.Equals compares whole seconds (types/timespantype.go:424-429).  The guard
+   attr_hyps_okb of the theorems excludes it (C10_coarse_equals_default_refuted); on this class the model, which
+   takes the flags as data, must still predict what the implementation rebuilt (the declared default in place of
+   the value), only the comparison with the original is dropped. *)
+Definition t_timespan : str := [84; 105; 109; 101; 115; 112; 97; 110]%N.   (* "Timespan" *)
+Definition coarse_timespan (a : attr str) (d : decl str) : bool :=
+  str_eqb (d_name d) (a_name a) && a_isdef a &&
+  match d_default d, erase (a_val a) with
+  | Some (PRich t1 _), PRich t2 _ => str_eqb t1 t_timespan && str_eqb t2 t_timespan
+  | _, _ => false
+  end.
+Definition coarse_class (l : list (attr str)) (ds : list (decl str)) : bool :=
+  forallb2 (fun a d => isdef_soundb str_eqb a d || coarse_timespan a d) l ds && nodupb (map a_name l).
+
 Definition struct_check (c : scase) : bool :=
   let '(req, l, ds, ob) := c in
-  forallb2 isdef_soundb l ds &&
-  nodupb (map a_name l) &&
+  (attr_hyps_okb str_eqb l ds || coarse_class l ds) &&
   match ob with
   | SObs full =>
       match init_from_hash pvalue_eqb req ds (pobj_attrs (erase (VObjS 0 VUndef l []))) with
-      | Ok r => list_eqb pvalue_eqb r full && list_eqb pvalue_eqb (map (fun a => erase (a_val a)) l) full
+      | Ok r => list_eqb pvalue_eqb r full &&
+                (negb (attr_hyps_okb str_eqb l ds) || list_eqb pvalue_eqb (map (fun a => erase (a_val a)) l) full)
       | _ => false
       end
   | SOther => false
